@@ -142,18 +142,25 @@ func (t *WorkerToken) spawn() error {
 	t.mu.Unlock()
 	ctx, cancel := context.WithTimeout(context.Background(), startTimeout)
 	defer cancel()
-	select {
-	case <-t.notify.Ready():
-		// ready
-	case <-ctx.Done():
-		// timed out
-		_ = cmd.Process.Kill()
-		return fmt.Errorf("token \"%s\" worker timed out during startup", t.tconf.Name())
-	case <-exited:
-		// terminated
-		return fmt.Errorf("token \"%s\" worker exited prematurely", t.tconf.Name())
+	for {
+		select {
+		case readyPid := <-t.notify.Ready():
+			if readyPid != pid {
+				// left behind by an earlier worker that went away before its
+				// notification was consumed; it says nothing about this one
+				continue
+			}
+			// ready
+			return nil
+		case <-ctx.Done():
+			// timed out
+			_ = cmd.Process.Kill()
+			return fmt.Errorf("token \"%s\" worker timed out during startup", t.tconf.Name())
+		case <-exited:
+			// terminated
+			return fmt.Errorf("token \"%s\" worker exited prematurely", t.tconf.Name())
+		}
 	}
-	return nil
 }
 
 func (t *WorkerToken) countWorkers() int {
